@@ -405,8 +405,63 @@ def run_stored(run, drv, pending, case):
                    len(case["quadkeys"]), edges, evs, mode)
 
 
+def band_case(run, case):
+    """Magnitudes a few ulps BELOW a bin edge lie inside the documented round-off band: either adjacent bin is allowed,
+    so nothing is compared with the exact recount or the model here — but every view of the SAME catalog must make the
+    same choice: total = number of events, sum over space = magnitude_counts, sum over magnitude = spatial_counts."""
+    from csep.core.regions import CartesianGrid2D
+    edges = numpy.array([float(x) for x in case["edges"]])
+    origins = numpy.array([[float(a), float(b)] for a, b in case["origins"]])
+    dh = float(case["dh"])
+    evs = [(float(a), float(b), float(c)) for a, b, c in case["events"]]
+    n = len(evs)
+    run.case(case if run.evaluations < 4 else None, ("band", tuple(case["edges"]), tuple(map(tuple, case["events"]))))
+    run.count("band-consistency")
+    for bound in (True, False):
+        region = CartesianGrid2D.from_origins(origins, dh=dh, magnitudes=edges if bound else None)
+        kw = {} if bound else dict(mag_bins=edges)
+        mc = _call(lambda: _cat(region, evs).magnitude_counts(**kw))
+        smc = _call(lambda: _cat(region, evs).spatial_magnitude_counts(**kw))
+        sc = _call(lambda: _cat(region, evs).spatial_counts())
+        if smc == "E" or not isinstance(smc, list):
+            run.count("band-consistency:rejected")     # a magnitude in the band below the FIRST edge may be rejected
+            if mc != "E" and isinstance(mc, list) and sum(mc) > n:
+                run.oracle_failure(case, f"magnitude_counts counts {sum(mc)} events in a catalog of {n}")
+            continue
+        if sum(map(sum, smc)) != n:
+            run.oracle_failure(case, f"total of the space-magnitude array {sum(map(sum, smc))} != number of events {n} "
+                                     f"(magnitudes in the round-off band below an edge)")
+        if mc == "E" or [sum(r[k] for r in smc) for k in range(len(edges))] != mc:
+            run.oracle_failure(case, f"sum over space {[sum(r[k] for r in smc) for k in range(len(edges))]} != "
+                                     f"magnitude_counts {mc} for magnitudes in the round-off band below an edge")
+        if sc == "E" or [sum(r) for r in smc] != sc:
+            run.oracle_failure(case, "sum over magnitude != spatial_counts (magnitudes in the round-off band)")
+
+
+def gen_band_case(rng):
+    start = rng.choice([2.5, 3.95, 4.0, 5.95, 0.05, 6.25])
+    step = rng.choice([0.1, 0.05, 0.25, 0.5])
+    nb = rng.randint(2, 12)
+    edges = [float(x) for x in edges_array(Fraction(repr(start)), Fraction(repr(step)), nb, "plain")]
+    nx, ny = rng.randint(2, 4), rng.randint(2, 4)
+    ax, ay, dh = rng.choice([-120.0, 0.0, 10.5]), rng.choice([30.0, -5.0, 0.25]), rng.choice([0.1, 0.5, 1.0])
+    origins = [[ax + i * dh, ay + j * dh] for i in range(nx) for j in range(ny)]
+    evs = []
+    for _ in range(rng.randint(1, 30)):
+        o = rng.choice(origins)
+        j = rng.randrange(len(edges))
+        m = edges[j]
+        for _ in range(rng.choice([0, 1, 1, 2, 3])):
+            m = math.nextafter(m, -math.inf)
+        evs.append([repr(o[0] + dh / 2), repr(o[1] + dh / 2), repr(m)])
+    return dict(kind="band", edges=[repr(e) for e in edges], origins=[[repr(a), repr(b)] for a, b in origins], dh=repr(dh),
+                events=evs)
+
+
 def run(run, rng, tier):
     drv, pending = Driver(), []
+    for k in range(150 if tier == "quick" else 1500):
+        band_case(run, gen_band_case(rng))
     for path in sorted(glob.glob(os.path.join(VERIF, "corpus", "C03", "*.json"))):
         run_stored(run, drv, pending, json.load(open(path)))
         run.count("corpus")
@@ -419,6 +474,9 @@ def run(run, rng, tier):
 
 
 def replay(run, payload):
+    if payload["case"].get("kind") == "band":
+        band_case(run, payload["case"])
+        return
     drv, pending = Driver(), []
     run_stored(run, drv, pending, payload["case"])
     flush(run, drv, pending)
